@@ -6,14 +6,23 @@ META["level"] = "other"
 CLASSES = ["contracts.C15_all:Depolarized", "contracts.C15_all:SingleSettingRepetitions", "contracts.C15_all:FlowTestSettingUnit", "contracts.C15_all:RandomLindbladianDraws", "contracts.C15_all:FlowRandomNoiseStreams", "contracts.C15_all:PhysicalityCheckOfARun", "contracts.C15_all:DepolarizedTesters", "contracts.C15_all:SimulationSettingCopy"]
 
 
+def _native_rl(**kw):
+    from . import C18_native as C
+    return C.job_random_lindbladians(**kw)
+
+
 def jobs(tier, seed):
-    return e2_jobs("C15", CLASSES, tier, seed)
+    from qverif.core.runner import Job
+    js = e2_jobs("C15", CLASSES, tier, seed)
+    # bounded stand-in (native floats) for the clause the proofs leave open: the random-Lindbladian noise produces physical objects
+    js.append(Job("C15/random-lindbladian-generators (instances)", "contracts.C15:_native_rl", dict(tier=tier, seed=seed, prop="C15"), timeout_s=900.0))
+    return js
 
 META["explanation"] = ("Partial: reproducibility / independence of the random draws is proved with ghost random streams for the single-setting entry point and the "
                        "test-setting flow (linear estimator, depolarising noise, stream routing of the random noise model); the built-in physicality check is proved relative to "
                        "the per-object verdicts of C01. Physicality of the random effective-Lindbladian objects and real multi-process workers are not decided.")
 META["not_decided"] = [
-                       "random effective-Lindbladian noise produces physical objects (expm, unitary_group opaque); in the flow contract its generate() is replaced by its stream contract",
+                       "random effective-Lindbladian noise produces physical objects: not decided by proof (expm, unitary_group opaque; in the flow contract its generate() is replaced by its stream contract); bounded stand-in only: seeded native draws (contracts/C18_native.py)",
                        "results with real joblib worker processes (the model runs tasks in-process in permuted orders)",
                        "loss-minimisation estimator cases inside a simulation run (estimators are deterministic functions of the stored data: C13)"]
 
